@@ -1,7 +1,7 @@
 (* C08 — Fragments and mixins are honoured as reusable base types.
    Property theorems only; proofs live in Proofs/FragmentsP.v. *)
 From Coq Require Import List String Bool Permutation.
-From AC Require Import Model.Prune Model.Fragments Proofs.FragmentsP.
+From AC Require Import Model.Prune Model.Fragments Proofs.PruneP Proofs.FragmentsP.
 Import ListNotations.
 Local Open Scope string_scope.
 
@@ -18,49 +18,67 @@ Proof. exact toposort_sound_lemma. Qed.
 Print Assumptions C08_toposort_sound.
 
 (* the rule of /repo HEAD (after the F11 fix): exclude = unpacked - used_as_mixins, then the worklist.
-   Every fragment an operation uses as a base, every fragment nobody unpacks and, transitively, every
-   mixin of a module fragment is in the module; exactly the names of the module are generated (so the
-   dependency dict read by the topological sort has every key it needs). *)
-Theorem C08_fragment_present : forall tbl names unp mix fuel names' done',
+   The worklist NEVER runs out of fuel (fuel = number of fragment definitions + 1, provided the mixins of
+   every fragment are defined fragments); every fragment an operation uses as a base, every fragment
+   nobody unpacks and, transitively, every mixin of a module fragment is in the module; exactly the names
+   of the module are generated (so the dependency dict read by the topological sort has every key). *)
+Theorem C08_fragment_present : forall tbl names unp mix,
+  (forall n d, In d (deps_of tbl n) -> In d names) ->
   let start := start_names names (exclude_of unp mix) in
-  work fuel tbl start start [] = Some (names', done') ->
+  exists names' done', work (1 + List.length names) tbl start start [] = Some (names', done') /\
   (forall f, In f names -> In f mix -> In f names') /\
   (forall f, In f names -> ~ In f unp -> In f names') /\
   (forall n, In n names' -> forall d, In d (deps_of tbl n) -> In d names') /\
   (forall x, In x names' <-> In x done').
-Proof. exact fragment_present_lemma. Qed.
+Proof. exact fragment_present_total. Qed.
 Print Assumptions C08_fragment_present.
 
-(* a fragment spread directly in a selection set, defined on exactly the type the set is evaluated for
-   (never a union) and free of inline fragments, is a base of the class generated for that set *)
-Theorem C08_mixin_instance : forall fuel sch frags snake cn tn ss extra s cs s' fn fd,
-  ptd fuel sch frags snake cn tn ss extra s = Some (cs, s') -> mem cn (st_public s) = false ->
-  In (SSpread fn) ss -> find_frag fn frags = Some fd ->
-  is_union sch (fr_on fd) = false -> fr_on fd = tn -> existsb is_inline (fr_sel fd) = false ->
+(* EVERY fragment spread directly in a selection set, defined on exactly the type the set is evaluated
+   for (never a union) and free of inline fragments, is resolved as a base of the class generated for
+   that set; after fix 959c464 its class is either listed as a base or inherited through a listed base
+   along the emitted class hierarchy (rgraph g: every fragment class lists its reduced bases) - so the
+   object is an instance of it.  g = base graph of the document, acyclic (fragment cycles are invalid). *)
+Theorem C08_mixin_instance : forall fuel sch frags g snake cn tn ss extra s cs s',
+  acyclic_g g ->
+  ptd fuel sch frags g snake cn tn ss extra s = Some (cs, s') -> mem cn (st_public s) = false ->
   exists c rest, cs = c :: rest /\ c_name c = cn /\ c_type c = tn /\
-                 In (pascal_s fn) (c_bases c) /\ In fn (c_frags c).
+    forall fn fd, In (SSpread fn) ss -> find_frag fn frags = Some fd ->
+      is_union sch (fr_on fd) = false -> fr_on fd = tn -> existsb is_inline (fr_sel fd) = false ->
+      In fn (c_frags c) /\
+      exists b, In b (c_bfrags c) /\ In (pascal_s b) (c_bases c) /\ reachable (rgraph g) b fn.
 Proof. exact mixin_instance_lemma. Qed.
 Print Assumptions C08_mixin_instance.
 
+(* the listed fragment bases never contain a fragment that another fragment of the resolved set - in
+   particular another listed base, earlier or later - inherits: `class X(A, B)` with B a subclass of A
+   (the pattern Python's C3 linearisation rejects, former finding C08-MRO) is never emitted.
+   C3 itself is not modelled; that every package imports is K3. *)
+Theorem C08_bases_no_ancestor : forall fuel sch frags g snake cn tn ss extra s cs s',
+  ptd fuel sch frags g snake cn tn ss extra s = Some (cs, s') -> mem cn (st_public s) = false ->
+  exists c rest, cs = c :: rest /\ incl (c_bfrags c) (c_frags c) /\
+    forall a b, In a (c_bfrags c) -> In b (c_frags c) -> ~ tcr g b a.
+Proof. exact bases_no_ancestor_lemma. Qed.
+Print Assumptions C08_bases_no_ancestor.
+
 (* bases of a generated class: the @mixin imports given for exactly that field / definition are all
-   bases, and nothing else is a base except BaseModel or classes of fragments resolved as mixins *)
-Theorem C08_mixin_bases : forall fuel sch frags snake cn tn ss extra s cs s',
-  ptd fuel sch frags snake cn tn ss extra s = Some (cs, s') -> mem cn (st_public s) = false ->
+   bases, and nothing else is a base except BaseModel or classes of listed fragments *)
+Theorem C08_mixin_bases : forall fuel sch frags g snake cn tn ss extra s cs s',
+  ptd fuel sch frags g snake cn tn ss extra s = Some (cs, s') -> mem cn (st_public s) = false ->
   exists c rest, cs = c :: rest /\ c_name c = cn /\
     (forall x, In x extra -> In x (c_bases c)) /\
     (forall x, In x (c_bases c) ->
-       In x extra \/ (c_frags c = [] /\ x = base_model) \/ exists fn, In fn (c_frags c) /\ x = pascal_s fn).
+       In x extra \/ (c_frags c = [] /\ x = base_model) \/ exists fn, In fn (c_bfrags c) /\ x = pascal_s fn).
 Proof. exact mixin_bases_lemma. Qed.
 Print Assumptions C08_mixin_bases.
 
-Theorem C08_mixin_bases_operation : forall fuel sch frags snake (o : opdef) cs s' from imp,
-  gen_op fuel sch frags snake o = Some (cs, s') -> In (from, imp) (o_mixins o) ->
+Theorem C08_mixin_bases_operation : forall fuel sch frags g snake (o : opdef) cs s' from imp,
+  gen_op fuel sch frags g snake o = Some (cs, s') -> In (from, imp) (o_mixins o) ->
   exists c rest, cs = c :: rest /\ c_name c = pascal_s (o_name o) /\ In imp (c_bases c).
 Proof. exact mixin_bases_def_lemma. Qed.
 Print Assumptions C08_mixin_bases_operation.
 
-Theorem C08_mixin_bases_fragment : forall fuel sch frags snake (fd : fragdef) cs s' from imp,
-  gen_frag fuel sch frags snake fd = Some (cs, s') -> unpack_fragment sch fd None = false ->
+Theorem C08_mixin_bases_fragment : forall fuel sch frags g snake (fd : fragdef) cs s' from imp,
+  gen_frag fuel sch frags g snake fd = Some (cs, s') -> unpack_fragment sch fd None = false ->
   In (from, imp) (fr_mixins fd) ->
   exists c rest, cs = c :: rest /\ c_name c = pascal_s (fr_name fd) /\ In imp (c_bases c).
 Proof. exact mixin_bases_frag_lemma. Qed.
@@ -110,15 +128,10 @@ Example C08_package_example :
   end.
 Proof. vm_compute. repeat split. Qed.
 
-(* ---- finding C08-MRO: the module does NOT always load ----
-   The full statement "every generated class statement is accepted by Python" fails on the faithful
-   model: bases are the alphabetically sorted fragment names, so a fragment that is spread next to a
-   fragment inheriting from it is listed first, and `class QDog(A, B)` with `class B(A)` has no C3
-   linearisation.  (Python's MRO algorithm itself is not modelled; mro_hazard1 is the syntactic pattern,
-   and the tie imports every generated package.) *)
-Definition C08_loadable_full : Prop := forall fuel sch frags ops snake o p,
-  generate_package fuel sch frags ops snake o = Some p -> mro_hazard1 p = false.
-
+(* ---- regression case of the former finding C08-MRO (fixed in /repo 959c464) ----
+   `query Q { dog { ...B ...A } } fragment A on Dog { a } fragment B on Dog { b ...A }` used to give
+   `class QDog(A, B)` with `class B(A)` (no C3 linearisation, TypeError at import).  The fixed rule lists
+   only B; A is inherited through it, and the hazard pattern is absent. *)
 Definition sch_mro : aschema := {|
   s_types := [("Query", KObj []); ("Dog", KObj []); ("Int", KLeaf)];
   s_fields := [("Query", [("dog", "Dog")]); ("Dog", [("a", "Int"); ("b", "Int")])] |}.
@@ -129,20 +142,18 @@ Definition ops_mro : list opdef :=
   [ {| o_name := "Q"; o_root := "Query"; o_mixins := [];
        o_sel := [SField None "dog" [] [SSpread "B"; SSpread "A"]] |} ].
 
-Theorem C08_loadable_refuted : ~ C08_loadable_full.
-Proof.
-  intro H.
-  destruct (generate_package 100 sch_mro frags_mro ops_mro true id_oracle) as [p|] eqn:E; [|vm_compute in E; discriminate].
-  specialize (H _ _ _ _ _ _ _ E). vm_compute in E. inversion E; subst. vm_compute in H. discriminate.
-Qed.
-Print Assumptions C08_loadable_refuted.
-
-Example C08_mro_witness :
+Example C08_mro_regression :
   match generate_package 100 sch_mro frags_mro ops_mro true id_oracle with
-  | Some p => map (fun r => map (fun c => (c_name c, c_bases c)) (snd (fst r))) (pk_ops p) =
-                [[("Q", ["BaseModel"]); ("QDog", ["A"; "B"])]] /\
+  | Some p => map (fun r => map (fun c => (c_name c, c_bases c, c_frags c)) (snd (fst r))) (pk_ops p) =
+                [[("Q", ["BaseModel"], []); ("QDog", ["B"], ["A"; "B"])]] /\
               option_map (fun m => map (fun nc => map (fun c => (c_name c, c_bases c)) (snd nc)) (fm_classes m)) (pk_module p) =
-                Some [[("A", ["BaseModel"])]; [("B", ["A"])]]
+                Some [[("A", ["BaseModel"])]; [("B", ["A"])]] /\
+              mro_hazard1 p = false
   | None => False
   end.
+Proof. vm_compute. repeat split. Qed.
+
+(* the hypotheses of C08_mixin_instance are met by that document: its base graph is acyclic *)
+Example C08_mro_graph : top_graph 100 sch_mro frags_mro = Some [("A", []); ("B", ["A"])] /\
+  reduced [("A", []); ("B", ["A"])] ["B"; "A"] = ["B"] /\ inherited [("A", []); ("B", ["A"])] ["B"; "A"] = ["A"].
 Proof. vm_compute. repeat split. Qed.
